@@ -5,7 +5,7 @@ engine, explored to a fixpoint under the stated bounds; oracle evaluated at
 every release against the *generator's* dependency closure and the harness's
 own in-flight ground truth (task messages decoded from worker transports).
 '''
-from . import common, aegen, schedcheck
+from . import common, aegen, schedcheck, c05worker
 
 LEVEL = 'model_checking'
 PID = 'C05'
@@ -32,7 +32,13 @@ def run(ctx):
     states, transitions, selfchecked, per = schedcheck.run(ctx, PID, jobs(ctx, {PID}))
     for p in per[:6]:
         ctx.sample(p)
+    worker_cases = c05worker.run(ctx)
     cov = {
+        'worker_tier_cases': worker_cases,
+        'worker_tier': 'real pl.worker.cluster.execute + worker.Context + generated task package against the real '
+                       'farm over an in-memory socket; engines x scenarios x endings '
+                       f'({len(c05worker.engines())} x {len(c05worker.SCENARIOS)} x {len(c05worker.endings())}), '
+                       'every case executed',
         'states': states, 'transitions': transitions,
         'traces_validated_against_impl': selfchecked,
         'explanation': 'exploration is on the implementation itself (no separate model): every '
